@@ -66,6 +66,8 @@ LEVEL_NOTE = ('Trusted: mc/env_fs.py (LoggedFS op log; its replay model is verif
               '(file status, last completed save) class of first-stop states and uses representative offsets '
               '(JSON token boundaries to depth 2) for both stops.')
 RULE = ('cases = histories (container, n1<=n2, save_frequency, spec2 in {same,+rate,+size}) x stop family x shard; '
+        'plus "api" cases (batches built through the API whose decoder prior differs from the simulated rate: shared '
+        'prior, swapped priors, prior per size; run - stop at every trial boundary - rebuild - resume), '
         'plus "grow" cases (two sizes x two rates grown by a rate / a size that precedes existing simulations in '
         'expansion order), "pause" cases (KeyboardInterrupt inside every trial - before generate and before decode '
         '- and at every trial boundary, then run() again on the same object), '
@@ -151,11 +153,37 @@ def spec_params(variant):
     return table[variant]
 
 
+# Batches built through the API (BatchSimulation + DirectSimulation), where the rate the decoder is calibrated
+# for (its prior) is NOT the rate errors are sampled at: (size, simulated rate, decoder prior) per simulation.
+API_SPECS = {
+    'api-shared-prior': [((2, 2), 0.02, 0.1), ((2, 2), 0.4, 0.1)],       # several rates, one prior
+    'api-swapped-prior': [((2, 2), 0.1, 0.2), ((2, 2), 0.2, 0.1)],       # every prior is another one's rate
+    'api-prior-per-size': [((2, 2), 0.3, 0.05), ((2, 3), 0.05, 0.3), ((2, 3), 0.3, 0.3)],
+}
+
+
+def build_api_batch(variant, out, f):
+    from panqec.codes import Toric2DCode
+    from panqec.decoders import MatchingDecoder
+    from panqec.error_models import PauliErrorModel
+    from panqec.simulation import BatchSimulation, DirectSimulation
+    batch = BatchSimulation(out, label='c12', save_frequency=f)
+    noise = PauliErrorModel(*DEPOL)
+    codes = {}
+    for size, rate, prior in API_SPECS[variant]:
+        code = codes.setdefault(size, Toric2DCode(*size))
+        batch.append(DirectSimulation(code, noise, MatchingDecoder(code, noise, prior), rate, verbose=False))
+    return batch
+
+
 def spec_of(variant):
     return make_spec(*spec_params(variant))
 
 
 def idents_of(variant):
+    if variant in API_SPECS:      # a simulation is identified by the rate it simulates, whatever the prior
+        return [make_ident('Toric2DCode', size, 'PauliErrorModel', DEPOL, 'MatchingDecoder', rate)
+                for size, rate, _prior in API_SPECS[variant]]
     sizes, rates, decoder, noise = spec_params(variant)
     return [make_ident('Toric2DCode', s, 'PauliErrorModel', noise, decoder, r) for s in sizes for r in rates]
 
@@ -326,7 +354,10 @@ def execute(root, container, variant, n, f, serial, inject=None, trace_disk=Fals
     try:
         with DetEnv(box), (fs if observe else _NoPatch()):
             try:
-                batch = read_input_dict(copy.deepcopy(spec_of(variant)), output_file=out, save_frequency=f)
+                if variant in API_SPECS:
+                    batch = build_api_batch(variant, out, f)
+                else:
+                    batch = read_input_dict(copy.deepcopy(spec_of(variant)), output_file=out, save_frequency=f)
                 for sim in batch:
                     _wrap(sim, fs, rec, intrial)
                 batch.run(n)
@@ -678,6 +709,11 @@ def judge(container, variant2, n2, b0, lineage, rec, final_bytes, final_state=No
         if ident in final:
             V.append(('duplicated', None, {'sim': ident, 'message': 'two records for one simulation'}))
         final[ident] = norm_results(r.get('results', {}))
+    if final_state is None and any(i not in final for i in want):
+        # the inputs recorded on disk must identify every simulation (code, noise, decoder, SIMULATED rate)
+        V.append(('wrong-identity', None, {
+            'message': 'the inputs recorded in the results file do not identify the simulations that wrote them',
+            'simulations': want, 'records_in_file': [ident_of_record(r) for r in recs or []][:8]}))
     for ident in want:
         fin = final.get(ident)
         if fin is None:
@@ -792,6 +828,9 @@ def cases(tier, seed):
                         'n_pairs': b['n_pairs'], 'tier': tier})
             out.append({'family': 'pause', 'container': container, 'save_frequency': f,
                         'n_pairs': b['n_pairs'], 'tier': tier})
+            for variant in sorted(API_SPECS):
+                out.append({'family': 'api', 'container': container, 'save_frequency': f, 'base': variant,
+                            'grown': [variant], 'n_pairs': b['n_pairs'], 'tier': tier})
     fams = ['between', 'kill', 'interrupt'] + (['depth2'] if b['depth'] >= 2 else [])
     for fam in fams:
         for (n1, n2) in b['n_pairs']:
@@ -822,7 +861,7 @@ def eval_case(case):
             return _eval_depth2(case, sb)
         if case['family'] == 'resume':
             return _eval_resume(case, sb)
-        if case['family'] == 'grow':
+        if case['family'] in ('grow', 'api'):
             return _eval_grow(case, sb)
         if case['family'] == 'pause':
             return _eval_pause(case, sb)
@@ -1028,9 +1067,11 @@ def _eval_grow(case, sb):
     acc = _Acc(case)
     container, f = case['container'], case['save_frequency']
     out_rel = out_name(container)
+    base = case.get('base', 'base2')
+    grown = case.get('grown', GROWN)
     for pair_no, (n1, n2) in enumerate(case['n_pairs']):
         d = sb.fresh({})
-        rec1 = execute(d, container, 'base2', n1, f, serial=0)
+        rec1 = execute(d, container, base, n1, f, serial=0)
         image1 = E.read_image(d)
         sb.drop(d)
         if rec1['raised'] is not None:
@@ -1040,16 +1081,16 @@ def _eval_grow(case, sb):
         cum = Cum()
         for _i, data in saves:
             cum = extend_cum(cum, data, container)
-        states = [{'stop': 'between-trials', 'where': {'run1': 'base2 completed %d trials' % n1},
+        states = [{'stop': 'between-trials', 'where': {'run1': '%s completed %d trials' % (base, n1)},
                    'image': image1, 'b0': latest_save(saves, len(rec1['log']) + 1, None), 'cum': cum,
                    'lineage': merge_lineage({}, rec1['mem'])}]
         if pair_no == 0:
-            states += list(stops_of_run(sb, container, 'base2', n1, f, ({}, None, {}), {'between'},
+            states += list(stops_of_run(sb, container, base, n1, f, ({}, None, {}), {'between'},
                                         TIER_OFFSETS['quick'], serial=0))
         sub = dict(case, n1=n1)
         for st in states:
-            st['start'] = 'base2-%d' % n1
-            for spec2 in GROWN:
+            st['start'] = '%s-%d' % (base, n1)
+            for spec2 in grown:
                 _judge_stop(acc, sb, sub, st, spec2, n2, f, serial=100000, depth=1)
     return acc.finish()
 
